@@ -94,4 +94,16 @@ def notSource : List String := ["Block", "CompositeLiteral", "Func", "Placeholde
 /-- not nodes: enumerations, positions, and the parts `FuncType`/`StructType`/`CompositeLiteral` print -/
 def notNodes : List String := ["ChanDirection", "Context", "Field", "Format", "KeyValue", "OperatorType", "Parameter", "Position"]
 
+/-! ## string-typed fields: written as they are parsed
+
+`parserUnquotes` (generated): the fields the parser fills with `unquoteString(tok.txt)`, i.e. the
+*content* of a string literal. `stringWrites` (generated): how each `String` method writes each
+string-typed field. A field that holds a content has to be written through `strconv.Quote`, whose
+inverse `unquoteString` is; written between
+plain quotes it comes back only when the content has no quote, backslash or line break. -/
+
+/-- the ways the `String` method of type `t` writes field `f` -/
+def writesOf (t f : String) : List Write :=
+  (stringWrites.filter fun e => e.1 == t && e.2.1 == f).map fun e => e.2.2
+
 end ScriggoV.OpTables
